@@ -4,7 +4,7 @@
    /repo/src/aioftp/common.py (Gen/Consts.v); the half year OF THE PROPERTY is the fixed number
    half_year_spec = 15778476 s (365.2425 d / 2) and the one-day window it grants is
    (now - half_year_spec, now - half_year_spec + 1 d]. *)
-From Coq Require Import ZArith List Bool.
+From Coq Require Import ZArith QArith Qround List Bool.
 From Verif Require Import Lib.Sx Lib.PyStr Lib.PyStr2 Lib.Civil Model.LsDate Model.Listing Model.ListingClient.
 From Verif Require Import Proofs.PyStr2Facts Proofs.CivilFacts Proofs.LsDateFacts Proofs.ListingFacts Proofs.ListingClientFacts.
 From Verif Require Model.Framing.
@@ -421,6 +421,21 @@ Proof. vm_compute. repeat split; congruence. Qed.
 Example C07_fault_fails_listing :
   mlsd_worker (fun e => de_kind e =? 7) [mkdentry [97] None 0; mkdentry [98] None 7; mkdentry [99] None 0] = None.
 Proof. reflexivity. Qed.
+
+(* ---------------- round 4: sub-second timestamps ---------------- *)
+(* "modification time in UTC seconds" for a backend time with a fractional part (a float is an
+   exact rational): the Modify/Create fact of q denotes the second e with e <= q < e + 1 — the
+   floor, never the next second (so 23:59:59.9999997 stays on its day, month and year) *)
+Theorem C07_mlsx_time_real_floor : forall q : Q,
+  1000 <= yr (civil_of_epoch (Qfloor q)) <= 9999 ->
+  let e := epoch_of_civil (parse14 (format_mlsx_time_real q)) in
+  (inject_Z e <= q)%Q /\ (q < inject_Z (e + 1))%Q.
+Proof. exact mlsx_time_real_floor. Qed.
+Print Assumptions C07_mlsx_time_real_floor.
+
+Example C07_mlsx_time_real_witness :   (* 1999-12-31 23:59:59.9999997 *)
+  format_mlsx_time_real (9466847999999997 # 10000000) = [49;57;57;57;49;50;51;49;50;51;53;57;53;57].
+Proof. vm_compute. reflexivity. Qed.
 
 (* non-vacuity of C07_client_list_typeless_rejected / C07_mlsx_no_name_rejected:
    "x=1; ." parses to the name "." with no type fact; "Type=file;" has no pathname *)
